@@ -473,7 +473,7 @@ def rule_kind_pgm(ctx, units=None):
                 vid = t[2]
                 ws = [w for w in fn_writes(f, vid) if reachable(f, w)]
                 if not ws:
-                    obs.append(Ob('KIND', f, r, 'routing result LAST_LE(key) returned', 'returned cursor is never assigned by a routing step', VIOLATED, arm='return'))
+                    obs.append(Ob('KIND', f, r, 'routing result LAST_LE(key) returned', 'returned cursor is never assigned by a recognised routing step', UNDECIDED, arm='return'))
                 for w in ws:
                     nd = f.n(w)
                     if (nd['c'] == 'BinaryOperator' and nd['op'] == '=') or (nd['c'] == 'CXXOperatorCallExpr' and nd.get('op') == '='):
@@ -485,7 +485,7 @@ def rule_kind_pgm(ctx, units=None):
                             k = kinds.kind_of_term(f.term(rhs, inline=True))
                         ok = bool(k) and k != kinds.START and k[0] == 'LAST_LE' and k[1] == KEY
                         obs.append(Ob('KIND', f, w, 'segment chosen at each level is LAST_LE(key): the rightmost segment with key <= the sought key',
-                                      f"`{fmt_term(f.term(w, inline=False))[:90]}` gives {_kind_txt(k)}", OK if ok else VIOLATED,
+                                      f"`{fmt_term(f.term(w, inline=False))[:90]}` gives {_kind_txt(k)}", OK if ok else (UNDECIDED if k is None else VIOLATED),
                                       arm='linear' if rt[0] == 'local' else 'binary'))
                     else:
                         obs.append(Ob('KIND', f, w, 'cursor only assigned from routing results', f"cursor modified by `{fmt_term(f.term(w, inline=False))[:80]}`", VIOLATED, arm='other-write'))
@@ -493,7 +493,7 @@ def rule_kind_pgm(ctx, units=None):
             else:
                 k = kinds.kind_of_term(f.term(e, inline=True))
                 ok = bool(k) and k[0] == 'LAST_LE' and k[1] == KEY
-                obs.append(Ob('KIND', f, r, 'LAST_LE(key) over the last level', _kind_txt(k), OK if ok else VIOLATED, arm='one-level'))
+                obs.append(Ob('KIND', f, r, 'LAST_LE(key) over the last level', _kind_txt(k), OK if ok else (UNDECIDED if k is None else VIOLATED), arm='one-level'))
     return obs
 
 
@@ -508,7 +508,7 @@ def rule_kind_bucketing(ctx, units=None):
         for r in [r for r in f.returns() if reachable(f, r)]:
             k = kinds.kind_of_term(f.term(f.n(r)['ch'][0], inline=True))
             ok = bool(k) and k[0] == 'LAST_LE' and k[1] == KEY
-            obs.append(Ob('KIND', f, r, 'LAST_LE(key) inside the bucket slice', _kind_txt(k), OK if ok else VIOLATED, arm='bucket'))
+            obs.append(Ob('KIND', f, r, 'LAST_LE(key) inside the bucket slice', _kind_txt(k), OK if ok else (UNDECIDED if k is None else VIOLATED), arm='bucket'))
     return obs
 
 
@@ -545,7 +545,8 @@ def rule_kind_compressed(ctx, units=None):
                 src = fmt_term(y)
                 if y[0] == 'local':
                     if f.single_def(y[2]):
-                        k = kinds.kind_of_term(f.term(f.single_def(y[2]), inline=True))
+                        # never re-assigned: either a search result itself, or just the start of the window
+                        k = kinds.kind_of_term(f.term(f.single_def(y[2]), inline=True)) or sb(init, y[2])
                     else:
                         k = sb(init, y[2])
                 else:
@@ -565,7 +566,7 @@ def rule_kind_compressed(ctx, units=None):
                 arm += ':scan' if via_scan else ':binary'
             obs.append(Ob('KIND', f, init, 'segment index = position of LAST_LE(clamped key) in the level (forward scan may compare the raw key)',
                           f"index from `{src}` which is {_kind_txt(k)}" + ('' if keyok else ' - searched with the unclamped key'),
-                          OK if (ok and keyok) else VIOLATED, arm=arm))
+                          OK if (ok and keyok) else (UNDECIDED if k is None else VIOLATED), arm=arm))
         if n == 0:
             raise AnalysisBroken(f"{f.qname}: no model evaluation found")
     return obs
